@@ -376,6 +376,14 @@ def fixeddict(name, *entries, **kwargs):
 
     __dict__["update"] = update
 
+    def __ior__(self, other):
+        # In-place merge (``d |= other``, Python 3.9+): must apply the same
+        # key checks as update() rather than dict's own implementation.
+        self.update(other)
+        return self
+
+    __dict__["__ior__"] = __ior__
+
     def __repr__(self):
         return "{}({{{}}})".format(
             self.__class__.__name__,
